@@ -71,6 +71,11 @@ CLAIMED["C18"] = dict(
    note="Bounds: 1-2 interfaces with one IPv4 and one IPv6 address each, port ranges of width <= 4, address pools where the code formats addresses as text. The defect found here (empty NetworkTypes gathered nothing) was repaired (fix e6334ca). Trusted: encoder, z3, fake transport.Net, randutil as arbitrary-in-range, context as real code. Outside: srflx/relay contents, TCP/UDP mux host paths, continual gathering, cycle overlap under real concurrency.",
    ref="DESIGN.md §5 C18")
 
+CLAIMED["C09"] = dict(
+   text="Sequential fault-path accounting on the real gatherer goroutine bodies: gatherCandidatesSrflx (listen, STUN exchange through the real GetXORMappedAddr, candidate creation, addCandidate), gatherCandidatesRelay over UDP (listen, TURN client factory, Listen, Allocate, location filter) and addRelayCandidates/createRelayCandidate, each run against recording fakes under every combination of injected failures incl. cancellation or agent close while the exchange is in flight: every resource acquired is closed or adopted by a started candidate, nothing is released twice, and candidate removal releases adopted resources exactly once. The host gatherer's accounting is part of C18(d), duplicate-candidate closing of C06.",
+   note="SEQUENTIAL fault paths only (claimed as such): goroutine bodies run to completion when spawned, helpers are scheduled cooperatively. Two leaks found here were repaired (fix 94392a5, 9897c5d); one finding stays listed (append-mode relay candidates share one allocation). Outside: timing of Restart/Close against in-flight exchanges under real concurrency, DTLS/TLS/TCP TURN branches, the open-socket tally after Close.",
+   ref="DESIGN.md §5 C09")
+
 NOT_APPLICABLE = {
  "C01": "needs two live agents, a symbolic network scheduler and a fairness (liveness) argument; a sequential encoder of single functions cannot express it (its safety half is covered by the C02/C03 lemmas)",
  "C08": "termination / unblocking of blocked goroutines and a goroutine census: no scheduler or channel model in a sequential SSA encoder",
@@ -79,7 +84,6 @@ NOT_APPLICABLE = {
 }
 
 NOT_BUILT = {
- "C09": "check not built yet in this round (planned in DESIGN.md §5); not claimed",
  "C15": "check not built yet in this round (planned in DESIGN.md §5); not claimed",
 }
 
